@@ -55,6 +55,12 @@ type (
 	headResponse struct {
 		size int
 		http.ResponseWriter
+
+		// 对于 GET 请求，首次 Write 或是 WriteHeader 之后报头就已经发送给客户端，之后对报头和状态码的修改不再有效果。
+		// HEAD 请求需要保持相同的行为：sent 表示报头是否已经处于已发送的状态；
+		// header 为之后由 Header 方法返回的副本，对其的修改不会反馈给客户端。
+		sent   bool
+		header http.Header
 	}
 )
 
@@ -358,10 +364,30 @@ func (p *Prefix[T]) Resource(pattern string, m ...types.Middleware[T]) *Resource
 // Router 返回与当前资源关联的 [Router] 实例
 func (r *Resource[T]) Router() *Router[T] { return r.router }
 
+func (resp *headResponse) Header() http.Header {
+	if resp.header != nil {
+		return resp.header
+	}
+	return resp.ResponseWriter.Header()
+}
+
+func (resp *headResponse) WriteHeader(status int) {
+	if resp.sent {
+		return
+	}
+	resp.sent = true
+	resp.ResponseWriter.WriteHeader(status)
+}
+
 func (resp *headResponse) Write(bs []byte) (int, error) {
+	if !resp.sent {
+		resp.sent = true
+		resp.header = resp.ResponseWriter.Header().Clone()
+	}
+
 	l := len(bs)
 	resp.size += l
 
-	resp.Header().Set(header.ContentLength, strconv.Itoa(resp.size))
+	resp.ResponseWriter.Header().Set(header.ContentLength, strconv.Itoa(resp.size))
 	return l, nil
 }
